@@ -73,7 +73,8 @@ def make_states(r):
             sep = r.choice([",", ", ", " , "])
             return sep.join(refs)
 
-        st = difflab.gen_state(r, path, suffix, "f%db" % fi, affects_fn=affects_fn, dup_rate=0.35 if r.random() < 0.3 else 0.0)
+        st = difflab.gen_state(r, path, suffix, "f%db" % fi, affects_fn=affects_fn, dup_rate=0.35 if r.random() < 0.3 else 0.0,
+                               sentinel=r.random() < 0.5)
         states[path] = st
     return states
 
@@ -440,6 +441,8 @@ def judge_pair(ctx, r, root, base, A, B, renames, deleted, added, desc, first, f
         return bad("C01/run-error", "validation failed with an error on well-formed input: %s" % err[:300]), None, None, None
     got = []
     for f, d in dl:
+        if d.get("code") == "line-count" and "sentinel" in d.get("message", ""):
+            continue      # the sentinel blocks' own warning (a second validator reporting on the same file)
         if d.get("code") != "affects":
             return bad("C01/foreign-diagnostic", "unexpected diagnostic %s" % str(d)[:200]), None, None, None
         data = d.get("data") or {}
